@@ -25,7 +25,7 @@ def _verify_one(qual):
     from pyvc.driver import verify_function
     from contracts import build_registry
     w = World()
-    reg = build_registry()
+    reg = build_registry(w)
     return verify_function(w, reg, qual)
 
 
@@ -87,7 +87,7 @@ def main():
         sys.exit(3)
     P = PROPS[pid]
     world = World()
-    reg = build_registry()
+    reg = build_registry(w)
     quals = list(P["functions"])
     nproc = max(1, min(len(quals), 12))
     os.environ.setdefault("PYVC_THREADS", "2")
